@@ -755,8 +755,10 @@ Proof.
   { intros st. rewrite (expand_compiles _ _ HC), ER, EC. reflexivity. }
   pose proof (declared_range_wf _ _ ER) as WF.
   pose proof (orange_roundtrip _ _ HW ER) as HO.
-  pose proof (doc_lossless_b_ok (a_docs a)) as HD.
-  unfold spec_decl. rewrite ER, EC.
+  pose proof (doc_lossless_b_ok (a_docs a)) as HD. unfold doc_lossless_b in HD.
+  unfold spec_decl. rewrite ER, EC. cbv zeta.
+  change (spec_doc_t (declared_text (a_docs a))) with (spec_doc a).
+  change (spec_op_t (declared_text (a_docs a)) a) with (spec_op a).
   (* the registered endpoint of each form *)
   set (O := mkOep (declared_opid a) (method_str (declared_method a)) (a_path a)
               (summary (extract (a_docs a))) (description (extract (a_docs a))) (a_tags a)
@@ -770,7 +772,7 @@ Proof.
       o_ctype o_versions o_ws]. rewrite HO, vr_eqb_refl.
     now rewrite !str_eqb_refl, strs_eqb_refl, !bool_eqb_refl, on_eqb_refl. }
   assert (HdO : spec_doc a (o_summary O) (o_description O) = true).
-  { unfold spec_doc, O. cbn [o_summary o_description]. now rewrite extracted_eta. }
+  { unfold spec_doc, spec_doc_t, O. cbn [o_summary o_description]. now rewrite extracted_eta. }
   (* routing *)
   set (R := fun v : option version =>
               if in_range r v then Some (declared_opid a, mime_type c, declared_maxbytes a) else None).
@@ -795,11 +797,11 @@ Proof.
          e_websocket]. rewrite (vmatches_in_range _ _ WF).
     destruct (negb (a_unpublished a) && in_range r (Some v)); reflexivity. }
   assert (HsD : forall v, spec_op a r v (D v) = (true, true)).
-  { intros v. unfold spec_op, D.
+  { intros v. unfold spec_op, spec_op_t, D.
     destruct (a_unpublished a); cbn [negb andb orb]; [reflexivity|].
     destruct (in_range r (Some v)); cbn [negb]; [|reflexivity].
     cbn [p_opid p_tags p_deprecated p_req p_ws p_summary p_description].
-    unfold spec_doc. rewrite extracted_eta, HD.
+    unfold spec_doc_t. rewrite extracted_eta, HD.
     unfold declared_req. rewrite EC.
     rewrite str_eqb_refl, strs_eqb_refl, !bool_eqb_refl. cbn [andb].
     destruct (declared_body a); cbn [body_param]; rewrite strs_eqb_refl; reflexivity. }
